@@ -23,6 +23,7 @@ pub fn gen_case(seed: u64, hist: u64, plan: &str) -> SchedCase {
     p.min_ops = 15;
     p.max_ops = 50;
     p.reopen_pm = if r.chance(1, 3) { 30 } else { 0 };
+    p.reject_pm = 30;
     // half of the histories never re-append with a lower term than a removed suffix
     p.lower_term = r.chance(1, 2);
     let h = seq::gen_case(r.next(), hist, &p, plan);
@@ -317,12 +318,17 @@ impl Observer for C15Obs<'_> {
         let rl = st.rl();
         if self.observations % 2 == 0 {
             let stop = std::sync::atomic::AtomicBool::new(false);
+            let reader_panic: std::sync::Mutex<Option<String>> = std::sync::Mutex::new(None);
+            let reader_panic = &reader_panic;
             std::thread::scope(|sc| {
                 for _ in 0..3 {
                     sc.spawn(|| {
                         let mut n = 0u32;
                         while !stop.load(std::sync::atomic::Ordering::Relaxed) && n < 20_000 {
-                            let _ = rl.read(0, u64::MAX).count();
+                            if let Err(p) = crate::store::guarded(|| rl.read(0, u64::MAX).count()) {
+                                *reader_panic.lock().unwrap() = Some(p);
+                                break;
+                            }
                             n += 1;
                         }
                     });
@@ -334,8 +340,15 @@ impl Observer for C15Obs<'_> {
                 stop.store(true, std::sync::atomic::Ordering::Relaxed);
             });
             self.drains_with_readers += 1;
+            if let Some(p) = reader_panic.lock().unwrap().take() {
+                return Err(Viol { prop: "C16".into(), sig: format!("C16:panic:read_concurrent_with_drain:{}", p.rsplit(" @ ").next().unwrap_or("?")), text: format!("a reader thread panicked while another thread drained the cache: {}", p), replay: json!({"kind": "c15", "case": self.case.to_json()}) });
+            }
         } else {
             rl.drain_cache_evictable();
+        }
+        // "worker idle" must mean that the boundary is final: nothing may become evictable after the drain
+        for _ in 0..300 {
+            std::thread::yield_now();
         }
         let (boundary, resident) = rl.verif_cache_resident();
         let s = rl.stat();
